@@ -110,12 +110,34 @@ OV = importlib.import_module("labrea.overload")
 CA = importlib.import_module("labrea.cache")
 DS = importlib.import_module("labrea.dataset")
 TY = importlib.import_module("labrea.types")
+LG = importlib.import_module("labrea.logging")
 Request, Runtime = RT.Request, RT.Runtime
 
 WAIT = 20.0
 MAXY = 200000
 TARGETS = set()
 TARGETS_OF = {"ctx": (RT,), "reg": (OV, DS), "cache": (CA,)}
+# "ctx" scenarios with "lib": the thread programs use the library's own context managers / derived-runtime helpers;
+# the modules that implement them are traced as well (logging.disabled, cache.disabled; handle / inherit are in RT)
+LIB_MODULES = (RT, LG, CA)
+# request types of the library observed in those scenarios: model type number -> (class, constructor arguments,
+# the value its `disabled()` handler returns - rendered as the reserved tag 0)
+LOG_T, CEX_T = 90, 91
+LIB_TYPES = {LOG_T: (LG.LogRequest, (10, "labrea.c15", "msg", {}), None),
+             CEX_T: (CA.CacheExistsRequest, (None, {}, None), False)}
+LIB_DEFAULTS = {cls: RT._DEFAULT_HANDLERS.get(cls, None) for cls, _, _ in LIB_TYPES.values()}
+PYLOG = []          # records that reached the python logger "labrea.c15" (the builtin handler of LogRequest)
+
+
+class _Capture(__import__("logging").Handler):
+    def emit(self, record):
+        PYLOG.append(record.getMessage())
+
+
+_lg = __import__("logging").getLogger("labrea.c15")
+_lg.propagate = False
+_lg.setLevel(1)
+_lg.addHandler(_Capture())
 # "graph" scenarios: the traced files are computed from the scenario's graph: cache.py + NODE_FILES, every labrea
 # module that defines the class of a user-built node of the graph (None in the other scenarios); SHARED_IDS are
 # the ids of those node objects (see make_tracer)
@@ -136,6 +158,9 @@ class InfraError(Exception):
     pass
 
 class Boom(Exception):
+    pass
+
+class LibraryDefaultHandlerRan(Exception):
     pass
 
 MISSING = object()
@@ -399,6 +424,8 @@ class CtxRun:
         self.thobj = {}
 
     def ty(self, k):
+        if k in LIB_TYPES:
+            return LIB_TYPES[k][0]
         if k not in self.types:
             self.types[k] = type("Req_%d_%d" % (self.serial, k), (Request,), {})
         return self.types[k]
@@ -406,9 +433,20 @@ class CtxRun:
     def hs(self, pairs):
         return {self.ty(k): (lambda req, h=h: h) for k, h in pairs}
 
-    def call_handle(self, f, pairs):
+    def request(self, k):
+        """run one request of type k in the calling thread; the tag of the handler that served it"""
+        if k not in LIB_TYPES:
+            return self.ty(k)().run()
+        cls, args, off = LIB_TYPES[k]
+        n = len(PYLOG)
+        v = cls(*args).run()
+        if len(PYLOG) != n:
+            raise LibraryDefaultHandlerRan()     # (the setup replaces the library's default handler by a tag)
+        return 0 if v is off else v           # tag 0: the library's own `disabled` handler of this type
+
+    def call_handle(self, f, pairs, mapping=False):
         m = self.hs(pairs)
-        if len(m) == 1:
+        if len(m) == 1 and not mapping:
             (cls, h), = m.items()
             return f(cls, h)
         return f(m)
@@ -436,20 +474,31 @@ class CtxRun:
                 elif k == "h":
                     self.op(s, me, "h %d %s" % (it[1], self.lab_hs(it[2])))
                     r = self.call_handle(RT.handle, it[2]); self.vars[it[1]] = r; self.keep.append(r)
+                elif k == "hm":
+                    # runtime.handle in its MAPPING form also for a single pair
+                    self.op(s, me, "h %d %s" % (it[1], self.lab_hs(it[2])))
+                    r = self.call_handle(RT.handle, it[2], True); self.vars[it[1]] = r; self.keep.append(r)
+                elif k == "dm":
+                    self.op(s, me, "d %d %d %s" % (it[1], it[2], self.lab_hs(it[3])))
+                    r = self.call_handle(self.vars[it[2]].handle, it[3], True); self.vars[it[1]] = r; self.keep.append(r)
                 elif k == "hd":
                     # ["hd", x]: `x = labrea.cache.disabled()` — the library's own context managers are runtimes derived
-                    # from the CALLER's current runtime at the time of the call (model: `h x` with no handlers for the
-                    # observed request types); entered with ["W", x, body] like any other
-                    import labrea.cache as LC
-                    self.op(s, me, "h %d %s" % (it[1], self.lab_hs([])))
-                    r = LC.disabled(); self.vars[it[1]] = r; self.keep.append(r)
+                    # from the CALLER's current runtime at the time of the call (model: `h x` with the fixed handler,
+                    # tag 0, for the observed request type CacheExistsRequest; the other two cache request types are
+                    # not observed); entered with ["W", x, body] like any other
+                    self.op(s, me, "h %d %s" % (it[1], self.lab_hs([[CEX_T, 0]])))
+                    r = CA.disabled(); self.vars[it[1]] = r; self.keep.append(r)
+                elif k == "hl":
+                    # ["hl", x]: `x = labrea.logging.disabled()` (model: `h x` with the fixed handler, tag 0, for LogRequest)
+                    self.op(s, me, "h %d %s" % (it[1], self.lab_hs([[LOG_T, 0]])))
+                    r = LG.disabled(); self.vars[it[1]] = r; self.keep.append(r)
                 elif k == "g":
                     self.op(s, me, "g %d %d" % (it[1], it[2]))
                     RT.handle_by_default(self.ty(it[1]), (lambda req, h=it[2]: h))
                 elif k == "r":
                     self.op(s, me, "r %d" % it[1])
                     try:
-                        v = self.ty(it[1])().run()
+                        v = self.request(it[1])
                         log.append("s%s" % (v,))
                     except TypeError:
                         log.append("T")
@@ -542,6 +591,11 @@ class CtxRun:
         RT._RUNTIMES.pop(threading.main_thread(), None)
         for cls in self.types.values():
             RT._DEFAULT_HANDLERS.pop(cls, None)
+        for cls, h in LIB_DEFAULTS.items():
+            if h is None:
+                RT._DEFAULT_HANDLERS.pop(cls, None)
+            else:
+                RT._DEFAULT_HANDLERS[cls] = h
         # render
         names = {}
         for x in sorted(self.vars):
@@ -567,6 +621,8 @@ class CtxRun:
                         toks.append(pre + "a%d" % anon.index(id(o)))
             out[str(t)] = toks
         commits = self.setup_commits + [lab for _, lab in s.commits]
+        if scn.get("lib"):
+            return s, {"commits": commits, "obs": out, "traced": sorted(os.path.basename(f) for f in TARGETS)}
         return s, {"commits": commits, "obs": out}
 
 
@@ -905,7 +961,7 @@ def execute(scn, serial, preempts, gran):
     if kind == "graph":
         return exec_graph(scn, serial, preempts, gran)
     TARGETS.clear()
-    for m in TARGETS_OF[kind]:
+    for m in (LIB_MODULES if (kind == "ctx" and scn.get("lib")) else TARGETS_OF[kind]):
         TARGETS.add(m.__file__)
     if kind == "ctx":
         return CtxRun(scn, serial).execute(preempts, gran)
@@ -1203,11 +1259,13 @@ def solo_expected(scn, i: int) -> List[List[str]]:
                     pass
             elif k == "^":
                 raise _Boom()
-            elif k in ("n", "h"):
-                ls.step(f"{t} {k} {it[1]} {hs(it[2])}")
+            elif k in ("n", "h", "hm"):
+                ls.step(f"{t} {k[0]} {it[1]} {hs(it[2])}")
             elif k == "hd":
-                ls.step(f"{t} h {it[1]} {hs([])}")
-            elif k == "d":
+                ls.step(f"{t} h {it[1]} {hs([[CEX_T, 0]])}")
+            elif k == "hl":
+                ls.step(f"{t} h {it[1]} {hs([[LOG_T, 0]])}")
+            elif k in ("d", "dm"):
                 ls.step(f"{t} d {it[1]} {it[2]} {hs(it[3])}")
             else:
                 ls.step(" ".join([str(t), k] + [str(x) for x in it[1:]]))
@@ -1221,6 +1279,11 @@ def solo_expected(scn, i: int) -> List[List[str]]:
 
 class _Boom(Exception):
     pass
+
+
+# model type numbers of the library's request types observed in the library-context-manager scenarios (as in RUNNER);
+# tag 0 is the library's own `disabled` handler of the type
+LOG_T, CEX_T = 90, 91
 
 
 def uses_inherit(items) -> bool:
@@ -1448,6 +1511,95 @@ def scenarios(rng: random.Random, thorough: bool) -> List[Tuple[str, Dict[str, A
         out.append((f"a-random-{r}", {"kind": "ctx", "setup": setup, "threads": threads}))
     # (d) last, so that the scenarios above and their seeds are what they were before the family existed
     out += graph_scenarios(rng, thorough)
+    # (a-lib) after (d), for the same reason
+    out += lib_scenarios(rng, thorough)
+    return out
+
+
+def lib_scenarios(rng: random.Random, thorough: bool) -> List[Tuple[str, Dict[str, Any]]]:
+    """(a-lib) handler contexts built with the library's OWN context managers and derived-runtime helpers:
+    labrea.logging.disabled() ["hl"], labrea.cache.disabled() ["hd"], runtime.handle(type, handler) / (mapping)
+    ["h" / "hm"], Runtime.handle on a runtime object ["d" / "dm"], runtime.inherit() ["i"], nested in either order
+    inside the threads' own blocks and entered repeatedly, by 2-3 threads whose current runtimes differ.  Request
+    types: two test types, LogRequest and CacheExistsRequest; every block of a thread has its own tags.  The
+    directed scenarios always run; the seed adds random programs over the same operations (quick 1, thorough 4)."""
+    T0, T1, L, C = 0, 1, LOG_T, CEX_T
+    setup = [["g", T0, 1], ["g", T1, 5], ["g", L, 2], ["g", C, 3]]
+    out: List[Tuple[str, Dict[str, Any]]] = []
+
+    def add(name, threads, extra_setup=()):
+        out.append((f"a-lib {name}", {"kind": "ctx", "lib": True, "setup": setup + list(extra_setup), "threads": threads}))
+
+    def loop(helper, x, bodies):
+        """`with helper(): body` once per body, every time a fresh call of the helper"""
+        items = []
+        for j, b in enumerate(bodies):
+            items += [[helper, x + j], ["W", x + j, b]]
+        return items
+
+    add("logging.disabled() in a loop inside the own handle() blocks of two threads",
+        [[["h", 1, [[T0, 21], [L, 31]]], ["W", 1, loop("hl", 10, [[["r", L], ["r", T0]], [["r", T0], ["r", L]]]) + [["r", L]]], ["r", T0]],
+         [["h", 2, [[T0, 22], [L, 32]]], ["W", 2, loop("hl", 20, [[["r", T0], ["r", L]], [["r", T0]]]) + [["r", L], ["r", T0]]]]])
+    add("cache.disabled() in a loop inside the own handle() blocks of two threads",
+        [[["hm", 1, [[T0, 21]]], ["W", 1, loop("hd", 10, [[["r", C], ["r", T0]], [["r", T0]]]) + [["r", C]]]],
+         [["h", 2, [[T0, 22], [C, 42]]], ["W", 2, loop("hd", 20, [[["r", T0]], [["r", T0], ["r", C]]]) + [["r", C], ["r", T0]]]]])
+    add("a thread on its default runtime against a thread inside handle(), both looping over logging.disabled()",
+        [loop("hl", 10, [[["r", T0], ["r", L]], [["r", T0]], [["r", L]]]) + [["r", L]],
+         [["hm", 2, [[T0, 22], [L, 32]]], ["W", 2, loop("hl", 20, [[["r", L]], [["r", T0], ["r", L]]]) + [["r", T0]]]]])
+    add("the helpers nested in either order: handle forms, Runtime.handle on an object, logging / cache disabled",
+        [[["hm", 1, [[T0, 21]]], ["W", 1, [["hl", 10], ["W", 10, [["h", 11, [[T1, 41]]], ["W", 11, [["r", T0], ["r", T1], ["r", L]]]]],
+                                         ["c", 12], ["dm", 13, 12, [[L, 33]]], ["W", 13, [["r", L], ["hl", 14], ["W", 14, [["r", L], ["r", T0]]]]]]]],
+         [["n", 2, [[T0, 22], [T1, 52]]], ["W", 2, [["hd", 20], ["W", 20, [["hl", 21], ["W", 21, [["r", T0], ["r", L], ["r", C]]]]],
+                                                   ["hl", 22], ["W", 22, [["hd", 23], ["W", 23, [["r", T1], ["r", C], ["r", L]]]]]]]]])
+    add("one Runtime object and runtimes derived from it, logging.disabled() entered three times by one thread",
+        [[["W", 0, loop("hl", 10, [[["r", T0]], [["r", L], ["r", T0]], [["r", T0]]])], ["r", L]],
+         [["W", 1, loop("hl", 20, [[["r", T0], ["r", L]], [["r", T0]]]) + [["r", L]]], ["r", T0]]],
+        [["n", 0, [[T0, 23], [L, 34]]], ["d", 1, 0, [[T0, 24]]]])
+    add("three threads: two in different handle() blocks, a worker that inherits, all looping over logging.disabled()",
+        [[["h", 1, [[T0, 21]]], ["W", 1, loop("hl", 10, [[["r", T0]], [["r", T0], ["r", L]]])]],
+         [["h", 2, [[T0, 22], [L, 32]]], ["W", 2, loop("hl", 20, [[["r", T0]], [["r", L], ["r", T0]]])]],
+         [["i", 1]] + loop("hl", 30, [[["r", T0]], [["r", T0]]]) + [["r", L]]])
+
+    for r in range(4 if thorough else 1):
+        nthr = rng.choice([2, 2, 3])
+        nvar, tag = [0], [60]
+
+        def fresh():
+            nvar[0] += 1
+            return 100 * (len(threads) + 1) + nvar[0]
+
+        def block(depth):
+            items = []
+            for _ in range(rng.randint(1, 2) if depth else rng.randint(2, 3)):
+                c = rng.random()
+                if c < 0.3 or depth >= 3:
+                    items.append(["r", rng.choice([T0, T0, T1, L, L, C])])
+                    continue
+                x = fresh()
+                tag[0] += 1
+                if c < 0.6:
+                    items.append([rng.choice(["hl", "hl", "hd"]), x])
+                elif c < 0.85:
+                    pairs = [[rng.choice([T0, T1, L, C]), tag[0]]]
+                    if rng.random() < 0.4:
+                        tag[0] += 1
+                        pairs.append([rng.choice([t for t in (T0, T1, L, C) if t != pairs[0][0]]), tag[0]])
+                    items.append([rng.choice(["h", "hm"]), x, pairs])
+                else:
+                    y = fresh()
+                    items.append(["c", y])
+                    items.append([rng.choice(["d", "dm"]), x, y, [[rng.choice([T0, L]), tag[0]]]])
+                items.append(["W", x, block(depth + 1) + [["r", rng.choice([T0, L])]]])
+            return items
+        threads: List[Any] = []
+        for _ in range(nthr):
+            nvar[0] = 0
+            tag[0] += 1
+            x = fresh()
+            threads.append([["h", x, [[T0, tag[0]]]], ["W", x, block(1)], ["r", T0]])
+        if nthr == 3 and rng.random() < 0.5:
+            threads[-1] = [["i", 1]] + threads[-1]
+        add(f"random-{r}", threads)
     return out
 
 
@@ -1515,6 +1667,19 @@ def phases(kind: str, thorough: bool, scn: Optional[Dict[str, Any]] = None) -> L
     graph scenarios: caps[c] = schedules with c preemptions per exploration depth (c = 0: the free choices - which
     thread starts, which one goes on when a thread has finished), budget = schedules per phase"""
     pb = 3 if thorough else 2
+    if kind == "ctx" and scn is not None and scn.get("lib"):
+        # one reservoir per number of preemptions, as in (d): all single-preemption schedules first
+        if thorough:
+            op = {"caps": [60, 600, 600, 600], "budget": 2000, "random": 0}
+            line = {"caps": [60, 2500, 500, 250], "budget": 3500, "random": 100}
+            opcode = {"caps": [60, 2500, 300, 150], "budget": 3000, "random": 100}
+        else:
+            op = {"caps": [30, 130, 40], "budget": 200, "random": 0}
+            line = {"caps": [30, 650, 30], "budget": 700, "random": 10}
+            opcode = {"caps": [30, 200, 15], "budget": 240, "random": 5}
+        return [{"gran": "op", "bound": pb, "cap": 0, **op},
+                {"gran": "line", "bound": pb, "cap": 0, **line},
+                {"gran": "opcode", "bound": pb, "cap": 0, **opcode}]
     if kind == "graph":
         two = len(scn["threads"]) == 2
         free = 30 if (scn.get("both_orders") or not two) else 0
@@ -1557,11 +1722,12 @@ def explore(ctx: Ctx) -> Exploration:
             for i, (_, scn) in enumerate(scns)]
     # one runner process per scenario (isolation; an infra failure names the scenario), several at a time; every
     # process is deterministic given its job, and the results are consumed in list order, so the verdict does not
-    # depend on the timing.  Submitted longest first: family (d) from the end of the list, then the others
+    # depend on the timing.  Submitted longest first: family (d) from the end of the list, then (a-lib), then the others
     timeout = 1500 if thorough else 240
     workers = max(1, min(12, (os.cpu_count() or 2) - 2))
     pool = ThreadPoolExecutor(max_workers=workers)
-    order = sorted(range(len(jobs)), key=lambda i: (scns[i][1]["kind"] != "graph", -i if scns[i][1]["kind"] == "graph" else i))
+    rank = lambda i: 0 if scns[i][1]["kind"] == "graph" else 1 if scns[i][1].get("lib") else 2
+    order = sorted(range(len(jobs)), key=lambda i: (rank(i), -i if rank(i) == 0 else i))
     background = {i: pool.submit(run_runner, [jobs[i]], 3 * timeout) for i in order}
     try:
         return _explore(ctx, thorough, scns, jobs, background)
